@@ -233,6 +233,17 @@ theorem context_set (s : SlaveCtx) (fx : Nat) (a : Int) (vs : List Nat) (k : Nat
   cases hz : s.zeroMode <;>
     simp [SlaveCtx.setValues, hb, SlaveCtx.off, hz, bind, Except.bind, pure, Except.pure]
 
+/-- Frame rule of the slave context: a write through one function code changes only the block that
+    code selects — every other table of the context, and its addressing mode, stay as they were. -/
+theorem context_set_frame (s : SlaveCtx) (fx : Nat) (a : Int) (vs : List Nat) (k : Nat) (blk : Block)
+    (hb : s.blockOf fx = .ok (k, blk)) (k' : Nat) (hk : k' ≠ k) :
+    ∃ s', s.setValues fx a vs = .ok s' ∧ s'.blocks[k']? = s.blocks[k']? ∧ s'.zeroMode = s.zeroMode ∧
+      s'.blocks.length = s.blocks.length := by
+  refine ⟨_, context_set s fx a vs k blk hb, ?_, rfl, ?_⟩
+  · simp only [List.getElem?_set]
+    rw [if_neg (by omega)]
+  · simp
+
 /-- The function-code → table map is the documented one. -/
 theorem fx_tables :
     fxTable 1 = some .c ∧ fxTable 5 = some .c ∧ fxTable 15 = some .c ∧ fxTable 2 = some .d ∧
